@@ -26,7 +26,9 @@ FLOORS = {
     'quick': {'lift_cases': 2000, 'lift_positions': 12000, 'lift_through_workbook': 100, 'fit_cases': 512,
               'fit_positions': 4000, 'fit_member_cells': 4000, 'fit_after_set_value': 400, 'shape_pairs': 256,
               'broadcast:row-x-column': 80, 'broadcast:scalar': 300, 'broadcast:row': 150, 'broadcast:column': 150,
-              'elements:error': 100, 'elements:text': 300, 'chained_fit_cases': 50},
+              'elements:error': 100, 'elements:text': 300, 'chained_fit_cases': 50,
+              'lift_function_over_offset_array': 90, 'fit_oversized_reader_ranges': 500,
+              'fit_cases_iterative_mode': 80},
     'thorough': {'lift_cases': 150000, 'fit_cases': 12000, 'shape_pairs': 256, 'lift_through_workbook': 5000},
 }
 EXHAUSTIVE = {'quick': False, 'thorough': False}
@@ -212,6 +214,44 @@ def lift_through_workbook(ctx, sym, opname, a, b, fill):
                 return
 
 
+WB_FUNCS = [('ABS({a})', lambda f, v: f('abs_')(v)), ('ROUND({a},1)', lambda f, v: f('round_')(v, 1)),
+            ('MOD({a},3)', lambda f, v: f('mod')(v, 3)), ('LEFT({a},1)', lambda f, v: f('left')(v, 1)),
+            ('SIGN({a})', lambda f, v: f('sign')(v)), ('INT({a})', lambda f, v: f('int_')(v))]
+
+
+def lift_function_through_workbook(ctx, h, w, k, via_offset):
+    """{=F(range)} and {=F(OFFSET(A1,0,0,h,w))} entered over an h x w target: every member is the scalar F of
+    its element (an array that comes out of OFFSET is an array like any other)"""
+    template, scalar = WB_FUNCS[k % len(WB_FUNCS)]
+    vals = grid('float', h, w, k)
+    cells = {}
+    for i in range(h):
+        for j in range(w):
+            cells[wb.coord(1 + j, 1 + i)] = vals[i][j]
+    src = f'OFFSET(A1,0,0,{h},{w})' if via_offset else (f'A1:{wb.coord(w, h)}' if (h, w) != (1, 1) else 'A1')
+    target = f'A10:{wb.coord(w, 9 + h)}' if (h, w) != (1, 1) else 'A10'
+    formula = '=' + template.format(a=src)
+    spec = {'sheets': [['Sheet1', cells]], 'names': {}, 'arrays': [['Sheet1', target, formula]], 'calc': None}
+    case = {'kind': 'lift-fn-wb', 'h': h, 'w': w, 'k': k, 'via_offset': via_offset}
+    comp = wb.compile_mem(spec)
+    ctx.count('lift_function_through_workbook')
+    ctx.count('lift_through_workbook')
+    if via_offset:
+        ctx.count('lift_function_over_offset_array')
+    ctx.case(('fnwb', h, w, k % len(WB_FUNCS), via_offset))
+    for i in range(h):
+        for j in range(w):
+            m = f'Sheet1!{wb.coord(1 + j, 10 + i)}'
+            got = wb.outcome(comp.evaluate, m)
+            want = scalar(lib.fn, vals[i][j])
+            ctx.count('lift_positions')
+            if got[0] == 'x' or not wb.same(got[1], want):
+                ctx.violation('array-formula-function-not-pointwise/' + ('offset-array' if via_offset else 'range'),
+                              f'member {m} of {{{formula}}} = {got!r}; the scalar call on {vals[i][j]!r} gives {want!r}',
+                              case)
+                return
+
+
 # --------------------------------------------------------------------------- fitting
 
 def fit_expected(result, th, tw):
@@ -242,7 +282,7 @@ def _text(v):
     return str(v)
 
 
-def one_fit(ctx, rh, rw, th, tw, kind, fill, offset):
+def one_fit(ctx, rh, rw, th, tw, kind, fill, offset, iterative=False):
     src_vals = grid(fill, rh, rw, offset)
     template, f = FIT_KINDS[kind]
     cells = {'J9': 100}
@@ -252,10 +292,14 @@ def one_fit(ctx, rh, rw, th, tw, kind, fill, offset):
     src = f'A1:{wb.coord(rw, rh)}' if (rh, rw) != (1, 1) else 'A1'
     target = f'A10:{wb.coord(tw, 9 + th)}' if (th, tw) != (1, 1) else 'A10'
     formula = template.format(src=src)
-    spec = {'sheets': [['Sheet1', cells]], 'names': {}, 'arrays': [['Sheet1', target, formula]], 'calc': None}
-    case = {'kind': 'fit', 'rh': rh, 'rw': rw, 'th': th, 'tw': tw, 'fkind': kind, 'fill': fill, 'offset': offset}
+    spec = {'sheets': [['Sheet1', cells]], 'names': {}, 'arrays': [['Sheet1', target, formula]],
+            'calc': {'iterate': True, 'count': 20, 'delta': 0.001} if iterative else None}
+    case = {'kind': 'fit', 'rh': rh, 'rw': rw, 'th': th, 'tw': tw, 'fkind': kind, 'fill': fill, 'offset': offset,
+            'iterative': iterative}
     comp = wb.compile_mem(spec)
     ctx.count('fit_cases')
+    if iterative:
+        ctx.count('fit_cases_iterative_mode')
     ctx.case(('fit', rh, rw, th, tw, kind, fill, offset), nontrivial=(rh, rw) != (th, tw))
     tag = (f'result-{"scalar" if (rh, rw) == (1, 1) else "row" if rh == 1 else "column" if rw == 1 else "block"}'
            f'/target-{"cell" if (th, tw) == (1, 1) else "row" if th == 1 else "column" if tw == 1 else "block"}')
@@ -292,6 +336,28 @@ def one_fit(ctx, rh, rw, th, tw, kind, fill, offset):
                                   f'{label}: member {m} of {{{formula}}} ({rh}x{rw} result) over {target} = '
                                   f'{got!r}, its element is {want[i][j]!r}', case)
                     return False
+        # a rectangle anchored at the target's first cell that reaches over blank cells next to it: the array
+        # formula must not spread into them
+        big = f'Sheet1!A10:{wb.coord(tw + 1, 9 + th + 2)}'
+        got = wb.outcome(comp.evaluate, big)
+        ctx.count('fit_oversized_reader_ranges')
+        from vp.checks.c05 import elements
+        try:
+            el = elements(got[1], th + 2, tw + 1) if got[0] == 'v' else None
+        except Exception:
+            el = None
+        bad = el is None
+        if not bad:
+            for (i, j), v in el.items():
+                w_ = want[i][j] if i < th and j < tw else None
+                if not wb.same(v, w_):
+                    bad = True
+                    break
+        if bad:
+            ctx.violation(f'array-formula-spreads-beyond-its-target/{tag}',
+                          f'{label}: evaluate({big}) over the target {target} of {{{formula}}} plus blank cells gives '
+                          f'{got!r:.300}', case)
+            return False
         return True
 
     if not check(src_vals, 'first evaluation'):
@@ -377,7 +443,7 @@ def run(ctx):
         for r in range(reps):
             kind = kinds[(n + r) % len(kinds)]
             fill = 'float' if kind in ('abs', 'plus-scalar') or r % 2 else 'int'
-            one_fit(ctx, rh, rw, th, tw, kind, fill, offset=(n * 7 + r * 3) % 16)
+            one_fit(ctx, rh, rw, th, tw, kind, fill, offset=(n * 7 + r * 3) % 16, iterative=(n + r) % 5 == 0)
     # ---- (1) lifting: deterministic sweep over shapes x broadcast partners
     m = 0
     for (h, w) in shapes:
@@ -435,6 +501,12 @@ def run(ctx):
                     else:
                         args.append(k)
                 lift_function(ctx, pyname, xlname, args, fill_n)
+    for (h, w) in shapes:
+        for k in range(len(WB_FUNCS)):
+            m += 1
+            if ctx.mine(m):
+                lift_function_through_workbook(ctx, h, w, k, via_offset=False)
+                lift_function_through_workbook(ctx, h, w, k, via_offset=True)
     # ---- sampled extras until the budget ends
     while not ctx.out_of_time():
         h, w = rng.randint(1, 4), rng.randint(1, 4)
@@ -460,10 +532,13 @@ def _tt(x):
 
 def replay(ctx, case):
     k = case['kind']
-    if k == 'chain':
+    if k == 'lift-fn-wb':
+        lift_function_through_workbook(ctx, case['h'], case['w'], case['k'], case['via_offset'])
+    elif k == 'chain':
         chained_fit(ctx, tuple(case['ysrc']), tuple(case['ytgt']), tuple(case['xtgt']), case['first'])
     elif k == 'fit':
-        one_fit(ctx, case['rh'], case['rw'], case['th'], case['tw'], case['fkind'], case['fill'], case['offset'])
+        one_fit(ctx, case['rh'], case['rw'], case['th'], case['tw'], case['fkind'], case['fill'], case['offset'],
+                iterative=case.get('iterative', False))
     elif k == 'lift-op':
         sym = dict(OPS)[case['op']]
         lift_operator(ctx, case['op'], sym, _tt(case['a']), _tt(case['b']), 'replay')
